@@ -15,8 +15,10 @@ import (
 	"os"
 	"os/exec"
 	"reflect"
+	"sort"
 	"strings"
 	"sync"
+	"sync/atomic"
 	"time"
 
 	"github.com/gorilla/websocket"
@@ -335,7 +337,9 @@ func (s *shimClient) open(b *wsBackend, label, version string) (sid string, stat
 	return r.ID, st
 }
 
-func randomMsg(rng *rand.Rand, n int, big bool, inject bool) wsMsg {
+var textSeq [2]int64 // text messages generated so far, per direction (0 = client to server, 1 = server to client)
+
+func randomMsg(rng *rand.Rand, n int, big bool, inject bool, dir int) wsMsg {
 	size := []int{0, 1, 10, 200, 5000}[rng.Intn(5)]
 	if big {
 		size = 1 << 20
@@ -345,10 +349,13 @@ func randomMsg(rng *rand.Rand, n int, big bool, inject bool) wsMsg {
 		p := make([]byte, size)
 		rng.Read(p)
 		return wsMsg{websocket.BinaryMessage, append([]byte(fmt.Sprintf("%d:", n)), p...)}
-	case 1: // text with quotes, escapes, astral characters
-		al := []string{"a", "\"", "\\", "<", ">", "&", "é", "😀", "\n", " ", " "}
+	case 1: // text over the character classes exported by TLC (WsShimGen.TextClasses); the k-th text message of
+		// a direction always contains class k mod |classes|, so that every class travels in both directions
+		al := textAlphabet()
 		var sb strings.Builder
 		fmt.Fprintf(&sb, "%d:", n)
+		k := atomic.AddInt64(&textSeq[dir], 1)
+		sb.WriteString(al[int(k)%len(al)])
 		for sb.Len() < size {
 			sb.WriteString(al[rng.Intn(len(al))])
 		}
@@ -360,6 +367,27 @@ func randomMsg(rng *rand.Rand, n int, big bool, inject bool) wsMsg {
 	default: // JSON that does not match the injection path
 		return wsMsg{websocket.TextMessage, []byte(fmt.Sprintf(`{"n":%d,"resource":"not-an-object","k":[1,2,3]}`, n))}
 	}
+}
+
+// TextClassNames is set from the case file (WsShimGen.TextClasses).
+var TextClassNames []string
+
+var textClassChars = map[string]string{"ascii": "a", "quote": "\"", "backslash": "\\", "lt": "<", "gt": ">", "amp": "&", "latin1": "é", "astral": "😀",
+	"newline": "\n", "cr": "\r", "tab": "\t", "space": " ", "nbsp": "\u00a0", "replacement-char": "\ufffd", "bom": "\ufeff", "nul": "\x00", "del": "\x7f",
+	"line-separator": "\u2028", "max-code-point": "\U0010ffff", "combining": "e\u0301", "rtl": "\u05d0\u202e"}
+
+func textAlphabet() []string {
+	names := TextClassNames
+	if len(names) == 0 {
+		names = []string{"ascii", "quote", "backslash", "lt", "gt", "amp", "latin1", "astral", "newline", "space", "nbsp"}
+	}
+	out := make([]string, 0, len(names))
+	for _, n := range names {
+		if c, ok := textClassChars[n]; ok {
+			out = append(out, c)
+		}
+	}
+	return out
 }
 
 func encodeMsg(sid string, m wsMsg) map[string]interface{} {
@@ -400,6 +428,12 @@ func decodePoll(body []byte) ([]wsMsg, bool) {
 // wsMsgDriver: C11. Random message histories in both directions with random batching.
 func wsMsgDriver(a *Args) {
 	res := a.Res
+	if a.Cases != "" {
+		if loadWsCases(a) == nil {
+			return
+		}
+		res.Extra["text_classes"] = len(TextClassNames)
+	}
 	rng := hx.Rand("wsmsg")
 	be := newWsBackend()
 	defer be.srv.Close()
@@ -432,7 +466,7 @@ func wsMsgDriver(a *Args) {
 				be.mu.Lock()
 				for i := 0; i < k; i++ {
 					cN++
-					m := randomMsg(rng, cN, hx.Thorough() && rng.Intn(40) == 0, inject)
+					m := randomMsg(rng, cN, hx.Thorough() && rng.Intn(40) == 0, inject, 0)
 					be.sentC[label][cN] = m
 					batch = append(batch, encodeMsg(sid, m))
 				}
@@ -446,7 +480,7 @@ func wsMsgDriver(a *Args) {
 				k := []int{1, 2, 11, 25}[rng.Intn(4)]
 				for i := 0; i < k; i++ {
 					sN++
-					m := randomMsg(rng, sN, false, false)
+					m := randomMsg(rng, sN, false, false, 1)
 					sent[sN] = m
 					if !be.send(label, sN, m) {
 						res.Bad("backend send failed")
@@ -499,8 +533,10 @@ func pollOnce(shim *shimClient, sid string, sent map[int]wsMsg, polled int) int 
 }
 
 type wsCases struct {
-	Seqs [][]string `json:"seqs"`
-	URLs []string   `json:"urls"`
+	Seqs     [][]string `json:"seqs"`
+	URLs     []string   `json:"urls"`
+	Reserved []string   `json:"reserved"`
+	Text     []string   `json:"textclasses"`
 }
 
 func loadWsCases(a *Args) *wsCases {
@@ -510,6 +546,8 @@ func loadWsCases(a *Args) *wsCases {
 		a.Res.Bad("cannot read cases %q: %v", a.Cases, err)
 		return nil
 	}
+	sort.Strings(c.Text)
+	TextClassNames = c.Text
 	return &c
 }
 
@@ -1049,8 +1087,14 @@ func wsURLDriver(a *Args) {
 	}
 	hx.Reset("wsurls", "wsurls")
 	n := 0
-	for _, class := range cases.URLs {
-		for k := 0; k < per; k++ {
+	classes := append([]string{}, cases.URLs...)
+	classes = append(classes, cases.Reserved...)
+	for _, class := range classes {
+		reps := per
+		if strings.HasPrefix(class, "rsv|") {
+			reps = (per + 4) / 5
+		}
+		for k := 0; k < reps; k++ {
 			n++
 			label := fmt.Sprintf("u%d", n)
 			body := concreteURL(class, label, rng)
@@ -1120,6 +1164,28 @@ func wsURLDriver(a *Args) {
 func concreteURL(class, label string, rng *rand.Rand) string {
 	t := randToken(rng, 5)
 	q := "?s=" + label
+	if f := strings.Split(class, "|"); len(f) == 5 && f[0] == "rsv" {
+		// rsv|<char>|<component>|<path form>|<reference form>
+		ch, comp, pathForm, form := f[1], f[2], f[3], f[4]
+		evil := "evil-" + t + ".example:9"
+		base := map[string]string{"absolute": "ws://other-" + t + ".example", "scheme-relative": "//other-" + t + ".example", "relative": ""}[form]
+		path := ""
+		if pathForm == "nonempty" || comp == "path" {
+			path = "/ws/p"
+		}
+		if comp == "path" {
+			path += "/a" + ch + evil + "/x"
+		}
+		query := q
+		if comp == "query" {
+			query += "&next=a" + ch + evil + "/"
+		}
+		frag := ""
+		if comp == "fragment" {
+			frag = "#f" + ch + evil + "/"
+		}
+		return base + path + query + frag
+	}
 	switch class {
 	case "abs-http-foreign":
 		return "http://evil-" + t + ".example/ws/a" + q
